@@ -165,7 +165,7 @@ RefBuild(s) ==
     IF Cyclic(cfg) THEN Feed(a0, [RetEv("build", <<"circular", "build">>, NoneRes) EXCEPT !.path = CyclePathOf(cfg)])
     ELSE IF Conflict(cfg) THEN Feed(a0, RetEv("build", <<"lifetimeConflict", "build">>, NoneRes))
     ELSE IF Missing(cfg) THEN Feed(a0, RetEv("build", <<"notfound", "build">>, NoneRes))
-    ELSE LET eager == {id \in RegIds(cfg) : (LifeOf(cfg, id) = "singleton" /\ Reg(cfg, id).shape # "inst")
+    ELSE LET eager == {id \in LiveRegIds(cfg) : (LifeOf(cfg, id) = "singleton" /\ Reg(cfg, id).shape # "inst")
                                              \/ (LifeOf(cfg, id) = "scoped" /\ IsInit(Reg(cfg, id)))}
              ivs == SetToSeq({i \in DOMAIN cfg.regs : cfg.regs[i].shape = "inst"})
              ai  == FeedAll(a0, [j \in DOMAIN ivs |-> [ev |-> "inst", reg |-> cfg.regs[ivs[j]].id, id |-> j]])
@@ -313,8 +313,9 @@ GuardsHold == bad = {}
 
 Inv_C01 == st.phase = "built" =>
     \A id \in RegIds(st.cfg) : (LifeOf(st.cfg, id) = "singleton" /\ Reg(st.cfg, id).shape # "inst") =>
-        /\ st.runs[id] = 1
-        /\ \A o \in 1..NOuts(Reg(st.cfg, id)) : Cardinality({x \in st.sing : x[1] = id /\ x[2] = o}) = 1
+        /\ st.runs[id] = (IF LiveReg(st.cfg, id) THEN 1 ELSE 0)
+        /\ \A o \in 1..NOuts(Reg(st.cfg, id)) : Cardinality({x \in st.sing : x[1] = id /\ x[2] = o}) =
+                                                  (IF o \in Rm(Reg(st.cfg, id)) THEN 0 ELSE 1)
 Act_C01 == [][st.phase = "built" /\ st'.phase = "built" =>
                \A id \in RegIds(st.cfg) : LifeOf(st.cfg, id) = "singleton" => st'.runs[id] = st.runs[id]]_vars
 
